@@ -41,8 +41,8 @@ theorem C08_step (s : BState) (c : Call) (h : Inv s) : Inv (step s c) := by
   case frag => exact h
   case exprIdentifier => exact h
   case quantBegin name =>
-    simp only [step, BState.popType, BState.pushNewFrame, BState.newFrame, BState.pushFrame]
-    refine inv_ite ?_ (inv_error ?_) <;> inv_plain
+    exact inv_of_eq (inv_addSymbol_plain (s := s.popType.1.pushNewFrame) (f := s.popType.1.pushNewFrame.top) (name := name)
+      (ty := .var s.popType.2) h (plain_var _)) rfl rfl
   case quantEnd => exact h
   case dynQuantBegin name => simp only [step]; inv_plain
   case dynQuantEnd => exact h
